@@ -47,6 +47,11 @@ CLAIMS = {
         text='Static: with statistics seeded as [N,d,d] from the init shape literal, every operation of _ema_update / _pth_inv_root keeps the blocks axis intact (no reduction without axis or over axis 0, no einsum dropping/renaming the block letter, no contraction outside vmap), the covariance is a vmap over the blocks axis contracting all other axes, each root comes from its own statistic; the einsum formula of _precondition_blocks, folded for every structural case, binds the blocks axis of update, roots and output to one letter and contracts each axis with its own root; in Distributed Shampoo the per-statistic values are only padded/stacked/batched/gathered/sliced/selected between collection and the vmapped root call and back; plus BlockPartitioner pairing, per-block slot slices, eigh padding mask and block contraction order. Necessary conditions of C08.',
         note='Trusted: vmap/eigh batching semantics. Undecided: numerical independence from the common padding size; blocked == separate to tolerance.',
         design='4/C08'),
+    'C09': dict(
+        technique='DEG abstract interpretation (homogeneity degrees in gradient scale and decay, linear constraint solving) on the value graph of the three FD updates; algebraic identities (l\' + t\')^(-1/p), cut-off index agreement, unfolding normal form',
+        text='Static, for Distributed Shampoo _fd_update_root, Tearfree Sketchy _update_axis (ekfac / relative-epsilon valuations) and OCO _fd_update_fn (4 algorithms): the update equations are homogeneous in the gradient scale with eigenvalues/escaped mass covariance-level and sketch roots root-level, each new slot has its old degree, and the pure-history part of every stored quantity is discounted by beta^(degree/2) (zero-gradient step scales V diag(l) V\' and t by the same beta); retained values/vectors are the first k of one SVD with cut-off s[k] (OCO: last row, rho = s[-1]); t\' = beta t + cutoff^2; stored inverse roots are (l\' + t\' [+eps])^(-1/p) of the same step with clamps at 0; the factored matrix is [sqrt(beta) V sqrt(l), unfolding of the gradient along the axis]. Necessary conditions of C09.',
+        note='Trusted: homogeneity of singular values/vectors; masks and epsilons degree 0. Undecided: the PSD bracket, orthonormality, exact low-rank tracking (numerical linear algebra); linear_approx_tail heuristic.',
+        design='4/C09'),
 }
 
 NOT_BUILT_REASON = 'checker for this property not built yet (build phase in progress; see DESIGN.md section 9)'
